@@ -3,7 +3,8 @@
    current source (translator/gen.py). *)
 From Coq Require Import String ZArith List Bool Arith.
 From SK Require Import Model.Skel Model.Stm Model.CallCount Proofs.CallCount
-     Spec.C18 Proofs.C18 Gen.Exprs Gen.Params Gen.Skeleton Gen.SkelTree.
+     Spec.C18 Proofs.C18 Gen.Exprs Gen.Params Gen.Skeleton Gen.SkelTree
+     Gen.XCatalog.
 Import ListNotations.
 Open Scope Z_scope.
 
@@ -83,6 +84,13 @@ Proof.
   - vm_compute. reflexivity.
 Qed.
 
+(* the files the dispatch and the pool size count ARE the catalog entries -
+   one per task submitted - and nothing else (no id table, no lookup
+   history): `FileSearcher.files` as read from the source *)
+Theorem C18_files_counted_are_catalog_entries :
+  x_fs_files_are_entry_paths = true.
+Proof. reflexivity. Qed.
+
 (* default configuration *)
 Theorem C18_default_max_parallel_tasks_nonneg :
   0 <= DEFAULT_MAX_PARALLEL_TASKS.
@@ -108,3 +116,4 @@ Print Assumptions C18_many_files_use_pool.
 Print Assumptions C18_submit_once_per_entry.
 Print Assumptions C18_one_dispatch_per_run.
 Print Assumptions C18_one_pool_per_dispatch.
+Print Assumptions C18_files_counted_are_catalog_entries.
